@@ -25,8 +25,6 @@ func init() {
 		// the two functions path by path, in a form that survives renames, hoists, helper extraction and control-flow restructuring
 		{"removeExtension.paths", canonPaths(x, "removeExtension", []string{"tbsData", "oid"}, nil, "removeExtensionPaths")},
 		{"BuildPrecertTBS.paths", canonPaths(x, "BuildPrecertTBS", []string{"tbsData", "preIssuer"}, []string{"removeExtension"}, "buildPrecertPaths")},
-		{"leaf.precert.calls", callArgsCanon(se, "MerkleTreeLeafFromChain", "x509.", "leafFromChainCallsCanon")},
-		{"leaf.embedded.calls", callArgsCanon(se, "MerkleTreeLeafForEmbeddedSCT", "x509.", "leafForEmbeddedCallsCanon")},
 		// EVERY statement of the two functions that writes to (a part of) `tbs`, or hands out `&tbs`, each with the conditions that guard it
 		// … and every statement that reads `tbs` as a whole (what is marshalled, and where)
 		{"oid.CTPoison", oidVar(x, "OIDExtensionCTPoison", "oidCTPoison")},
@@ -51,13 +49,6 @@ func init() {
 			"`parseBase128Int` refuses a group whose first byte is the padding byte 0x80 (non-minimal arc / tag number)")},
 		{"wiring.RemoveSCTList", soleReturn(x, "RemoveSCTList", "removeSCTListReturns")},
 		{"wiring.RemoveCTPoison", soleReturn(x, "RemoveCTPoison", "removeCTPoisonReturns")},
-		// the chain-length guards of the two leaf builders (n = len(chain))
-		{"leaf.precert.guard2", condKernel(se, "MerkleTreeLeafFromChain", []string{"len(chain)", "2"}, "leafChainTooShort", "(n : Int)",
-			Spec{Repl: map[string]string{"len(chain)": "n"}})},
-		{"leaf.precert.guard3", condKernel(se, "MerkleTreeLeafFromChain", []string{"len(chain)", "3"}, "leafPreIssuerChainTooShort", "(n : Int)",
-			Spec{Repl: map[string]string{"len(chain)": "n"}})},
-		{"leaf.embedded.guard2", condKernel(se, "MerkleTreeLeafForEmbeddedSCT", []string{"len(chain)", "2"}, "leafEmbeddedChainTooShort", "(n : Int)",
-			Spec{Repl: map[string]string{"len(chain)": "n"}})},
 	}})
 }
 
